@@ -90,6 +90,11 @@ pub enum Tamper {
     NotExistence { which: bool, kind: u8 },
     /// honest proof wrapped in a batch next to another account's proof
     Batch { which: bool, honest_first: bool },
+    /// a chain that is internally consistent for ANOTHER state (different balance) followed by an extra
+    /// trailing operation: 0: whose proven value is that other state's root (so the forged chain "links" to
+    /// it instead of the app hash), 1: a copy of the honest multistore op, 2: carrying a random value,
+    /// 3: honest chain + trailing op carrying the real app hash
+    TrailingOp { kind: u8 },
 }
 
 #[derive(Clone, Debug, Serialize, Deserialize)]
@@ -137,6 +142,7 @@ fn tamper_strategy() -> impl Strategy<Value = Tamper> {
         2 => any::<bool>().prop_map(|keep_proof| Tamper::EmptyValue { keep_proof }),
         1 => (any::<bool>(), 0u8..2).prop_map(|(which, kind)| Tamper::NotExistence { which, kind }),
         1 => (any::<bool>(), any::<bool>()).prop_map(|(which, honest_first)| Tamper::Batch { which, honest_first }),
+        3 => (0u8..4).prop_map(|kind| Tamper::TrailingOp { kind }),
     ]
 }
 
@@ -521,6 +527,37 @@ fn apply(t: &Tamper, w: &World, honest: &Answer) -> Option<(Answer, Strict, &'st
         Tamper::OpsDrop { which } => {
             a.ops.as_mut()?.remove(idx(*which));
             (Strict::MustReject, "ops-dropped")
+        }
+        Tamper::TrailingOp { kind } => {
+            let forged = honest_answer(w, &w.bank2, &w.multi2, &w.target_key);
+            let mut extra = w.multi2.prove("bank")?;
+            extra.path.clear();
+            let strict;
+            match kind {
+                0 => {
+                    extra.value = w.multi2.app_hash().to_vec();
+                    a.value = forged.value.clone();
+                    a.ops = forged.ops.clone();
+                    strict = Strict::MustReject;
+                }
+                1 => {
+                    let honest_op = a.ops.as_ref()?[1].clone();
+                    a.ops.as_mut()?.push(honest_op);
+                    return Some((a, Strict::MustReject, "trailing-op"));
+                }
+                2 => {
+                    extra.value = vec![0x5a; 32];
+                    a.value = forged.value.clone();
+                    a.ops = forged.ops.clone();
+                    strict = Strict::MustReject;
+                }
+                _ => {
+                    extra.value = w.multi.app_hash().to_vec();
+                    strict = Strict::MustReject;
+                }
+            }
+            a.ops.as_mut()?.push(Op { ty: "ics23:simple".into(), key: b"bank".to_vec(), proof: exist(extra) });
+            (strict, "trailing-op")
         }
         Tamper::OpsDup { which } => {
             let ops = a.ops.as_mut()?;
